@@ -1,16 +1,87 @@
 """C01 — A* returns the highest-scoring derivation; popped priorities never increase."""
 import time
-from props import cxx, c12
+
+import z3
+
+from vc.sorts import CheckerError
+from vc import engine
+from vc.engine import verify_contract
+from contracts import grammar as gc
+from props import cxx, c12, c03
+
 PROP = 'C01'
+GRAMMARS = (('en', 'depccg/grammar/en.py', True), ('ja', 'depccg/grammar/ja.py', False))
+
+
+class HeadDirection(gc.Combinator):
+    """a binary rule of a shipped grammar returns None or a result whose head_is_left is the grammar's one direction (the premise of C01:
+    the head of a span is then a function of the span, and first-pop-wins per (span, category) is sound)"""
+    def __init__(self, rel, fname, lang, direction):
+        gc.Combinator.__init__(self, rel, fname, lang)
+        self.direction = direction
+
+    def post(self, I, case, args, result):
+        if result is None:
+            return z3.BoolVal(True)
+        ok, rcat, label, head = gc.decode_result(I, result)
+        return z3.BoolVal(bool(ok) and head is self.direction)
+
+
+def replay_head(rel, fname, direction, inputs):
+    import json
+    if any(isinstance(v, str) and v.startswith('<') for v in inputs.values()):
+        return dict(reproduced=False, note='model not ground')
+    mod = rel[:-3].replace('/', '.')
+    body = ('import json\nfrom vc import twin\nfrom vc.twin import build\n'
+            f'import {mod} as g\n'
+            f'inputs = json.loads({json.dumps(json.dumps(inputs))})\n'
+            'x, y = build(inputs["x"]), build(inputs["y"])\n'
+            f'r = g.{fname}(x, y)\n'
+            f'bad = r is not None and r.head_is_left is not {direction!r}\n'
+            'print("REPRODUCED" if bad else "NOT-REPRODUCED", twin.str_spec(x), twin.str_spec(y), r)\n')
+    rc, out, err = engine.run_real(body)
+    return dict(reproduced='REPRODUCED' in out and 'NOT-REPRODUCED' not in out, stdout=out[-800:], stderr=err[-800:], script=body)
+
+
+def run_job(kind, key):
+    lang, rel, direction, name = key
+    w, I, table = c03.setup()
+    c = HeadDirection(rel, name, lang, direction)
+    engine.PREFER[:] = [c03.nice_models(lang)]
+    recs, npaths = verify_contract(I, c, PROP)
+    for r in recs:
+        if r['verdict'] == 'failed' and r.get('inputs'):
+            r['replay'] = replay_head(rel, name, direction, r['inputs'])
+    out = []
+    for r in recs:
+        if r['kind'] in ('post', 'vacuity') or r['verdict'] != 'discharged':
+            r['name'] = r['name'].replace('/post@', '/head-direction@')
+            r['witness'] = dict(function=f'{rel}::{name}', direction='left' if direction else 'right')
+            if r['kind'] == 'noraise':
+                continue           # exception freedom of the rules is C14's business
+            out.append(r)
+    return dict(job=key, records=out, paths=npaths)
 
 
 def main(tier='quick', seed=0):
     t0 = time.time()
     records, errors, info = cxx.records_for(PROP)
+    w, I, table = c03.setup()
+    jobs = []
+    for lang, rel, direction in GRAMMARS:
+        for name in c03.combinator_names(I, rel):
+            jobs.append(('head', (lang, rel, direction, name)))
+    for r in engine.run_jobs('props.c01', jobs):
+        records.extend(r.get('records', []))
+        if r.get('error'):
+            errors.append(f"{r['error']} (job {r['job']})")
     assumptions = list(cxx.CXX_ASSUMPTIONS) + [
         'scores are log-probabilities is NOT needed for the monotonicity obligations (they use only best_tag/best_dep >= every entry); unary_penalty >= 0',
         'pop order: with `every agenda element <= last popped priority` as loop invariant, top() being a maximum (STL contract) and the proved obligation monotone (every push <= the popped priority), the sequence of popped priorities is non-increasing',
+        'premise "both shipped grammars share one head direction": every function in the module-level list `combinators` of grammar/en.py returns head_is_left=True and of grammar/ja.py head_is_left=False on every path '
+        '(PyVC, head-direction obligations; unary results carry head_is_left=True in both and do not combine two heads)',
         'optimality: A* meta-theorem (monotone priorities, zero estimate for goal items, first-pop-wins per (span, category) when the head is a function of the span, exhaustive combination) is ASSUMED; the clause itself is checked bounded against an exhaustive oracle',
     ]
-    extra = dict(functions_under_contract=['depccg/parsing.h::parse_sentence (Inv: span, head, outside estimate, inside bound; monotone pushes at all sites)'] + cxx.HELPER_FUNCTIONS['C01'], cxx=info)
+    extra = dict(functions_under_contract=['depccg/parsing.h::parse_sentence (Inv: span, head, outside estimate, inside bound; monotone pushes at all sites)'] + cxx.HELPER_FUNCTIONS['C01'] +
+                 [f'{rel}::{name} (head direction)' for lang, rel, d in GRAMMARS for name in c03.combinator_names(I, rel)], cxx=info)
     return c12.finish_with(PROP, tier, seed, t0, records, errors, extra, assumptions, ['search_real.py'])
